@@ -15,7 +15,7 @@ enum {
 	PR_CV_SIGNAL_VS_TIMEOUT, PR_READER_SHARED, PR_QUIESCE_JUDGED, PR_NPROBES
 };
 const char *nsim_probe_names[] = {
-	"dead_access", "rt1", "rt2", "rt3", "rt4", "rt5", "rt6", "rt7",
+	"dead_access", "tolerated_dead_read_run_discarded", "rt2", "rt3", "rt4", "rt5", "rt6", "rt7",
 	"op_blocked", "wait_returned_timeout", "wait_returned_cancel", "wait_returned_woken", "try_failed", "try_succeeded",
 	"mu_wait_slept", "condition_evaluated_by_other_thread", "note_observed_notified", "note_freed",
 	"counter_zero_with_waiters", "once_loser_waited", "wait_n_heap_array", "wait_n_woken_by_object", "sem_fault_injected",
